@@ -179,10 +179,27 @@ fn check_encoder(case: &EncCase, p: &mut Probe) -> Check {
         if h.num_cols() != n || h.num_rows() != n - k {
             return Err(Fail::new("dimensions", format!("{name}: matrix is {} x {}", h.num_rows(), h.num_cols())));
         }
+        let t0 = std::time::Instant::now();
+        let h_again = code.h();
+        let t_build = t0.elapsed();
+        drop(h_again);
+        let t1 = std::time::Instant::now();
         let enc = guarded(|| Encoder::from_h(&h)).map_err(|e| Fail::new("panic", format!("{name}: Encoder::from_h panicked: {e}")))?;
+        let t_enc = t1.elapsed();
         let enc = enc.map_err(|e| Fail::new("encoder-rejects", format!("{name}: Encoder::from_h failed: {e}")))?;
+        // "in linear time, without dense elimination": recognised through the Debug rendering of the
+        // encoder (variant name Staircase). Should a refactoring rename the variant, the rendering says
+        // nothing; the verdict then rests on cost: building the encoder of a staircase matrix costs
+        // about as much as building the matrix itself (measured: at most 1.2 times, all 21 codes), dense
+        // elimination 180 times as much on the smallest matrix (R8_9short, 1800 x 16200) and more on
+        // every other one, so a factor of 15 separates the two with a margin of 12 either way.
         let dbg = format!("{enc:?}");
-        ensure!(dbg.starts_with("Encoder { encoder: Staircase"), "not-linear-time", "{name}: the encoder did not take the staircase (linear-time) path: {}", &dbg[..dbg.len().min(60)]);
+        p.metric("encoder_build_cost_over_matrix_build_cost", t_enc.as_secs_f64() / t_build.as_secs_f64().max(1e-4));
+        if !dbg.contains("Staircase") {
+            let ratio = t_enc.as_secs_f64() / t_build.as_secs_f64().max(1e-3);
+            p.class("staircase-path-judged-by-cost");
+            ensure!(ratio <= 15.0, "not-linear-time", "{name}: the encoder did not take the staircase (linear-time) path: {} and building it took {:.2} s, {ratio:.0} times the construction of the matrix", &dbg[..dbg.len().min(60)], t_enc.as_secs_f64());
+        }
         let rows = sorted_rows(&h);
         let mut sd = splitmix(case.seed ^ hash_str(name));
         for t in 0..case.messages {
@@ -228,7 +245,7 @@ pub fn property() -> Property {
             }),
             Box::new(EnumSub {
                 name: "encoder",
-                rule: "all 21 codes in ascending order of n-k: Encoder::from_h succeeds and its Debug rendering shows the staircase variant (linear time, no dense elimination); 8 (thorough 200) messages per code (all-ones + pseudo-random from VERIF_SEED): systematic prefix and own H c = 0; inner = encoded messages",
+                rule: "all 21 codes in ascending order of n-k: Encoder::from_h succeeds and its Debug rendering shows the staircase variant (linear time, no dense elimination; if a renamed variant hides it, building the encoder must cost less than 15 times the construction of the matrix); 8 (thorough 200) messages per code (all-ones + pseudo-random from VERIF_SEED): systematic prefix and own H c = 0; inner = encoded messages",
                 cases: enc_cases,
                 check: check_encoder,
                 exhaustive: true,
@@ -236,7 +253,7 @@ pub fn property() -> Property {
         ],
         assumptions: vec![
             "the (n, k) pairs and degree profiles are the harness's own transcription of ETSI EN 302 307-1 Tables 5a/5b; the individual address-table entries are pinned from the tree at pin time (regression oracle, not a proof of conformance of each entry to the paper standard)".into(),
-            "the staircase path is recognised through the Debug rendering of the encoder".into(),
+            "the staircase path is recognised through the Debug rendering of the encoder (variant name); if the rendering does not mention it, by cost relative to constructing the matrix (threshold 15; measured 1.2 for the staircase path, >= 180 for dense elimination)".into(),
         ],
     }
 }
